@@ -316,8 +316,79 @@ func reaches(a, b ssa.Instruction) bool {
 	return instrReach(a, nil)[b]
 }
 
+// checkReaderRole: what runs on the reading goroutine - the frame loop and the default ping/pong/close handlers it
+// calls - answers the peer through WriteControl only.  The message-writing API (NextWriter, WriteMessage, prepared
+// messages, JSON) belongs to the one goroutine that writes data: it uses the shared write buffer and the single open
+// message writer without a lock, and calling it from the reader truncates the application's message in progress.
+func checkReaderRole(c *Ctx) {
+	P, R := c.P, c.R
+	var roots []*ssa.Function
+	for _, n := range []string{"(*Conn).SetPingHandler", "(*Conn).SetPongHandler", "(*Conn).SetCloseHandler"} {
+		fn := P.Func("websocket", n)
+		if !R.Anchor(fn != nil, "C15.own", "websocket."+n) {
+			return
+		}
+		roots = append(roots, fn.AnonFuncs...)
+	}
+	for _, n := range []string{"(*Conn).advanceFrame", "(*Conn).handleProtocolError"} {
+		if fn := P.Func("websocket", n); fn != nil {
+			roots = append(roots, fn)
+		}
+	}
+	writerRole := map[*ssa.Function]bool{}
+	for _, n := range []string{"(*Conn).prepWrite", "(*Conn).NextWriter", "(*Conn).WriteMessage", "(*Conn).WritePreparedMessage", "(*Conn).WriteJSON"} {
+		if fn := P.Func("websocket", n); fn != nil {
+			writerRole[fn] = true
+		}
+	}
+	if !R.Anchor(len(writerRole) >= 4, "C15.own", "websocket message-writing API (prepWrite, NextWriter, WriteMessage, WritePreparedMessage)") {
+		return
+	}
+	for _, root := range roots {
+		// static calls only (the handler fields are function values: their defaults are the closures listed as roots)
+		seen := map[*ssa.Function]*ssa.Function{root: nil}
+		queue := []*ssa.Function{root}
+		var hit *ssa.Function
+		for len(queue) > 0 && hit == nil {
+			f := queue[0]
+			queue = queue[1:]
+			for _, g := range core.WithClosures(f) {
+				core.EachInstr(g, func(in ssa.Instruction) {
+					ci, ok := in.(ssa.CallInstruction)
+					if !ok {
+						return
+					}
+					cal := ci.Common().StaticCallee()
+					if cal == nil || !core.InModule(cal) {
+						return
+					}
+					if _, dup := seen[cal]; dup {
+						return
+					}
+					seen[cal] = f
+					if writerRole[cal] && hit == nil {
+						hit = cal
+					}
+					queue = append(queue, cal)
+				})
+			}
+		}
+		path := ""
+		for f := hit; f != nil; f = seen[f] {
+			if path != "" {
+				path = " -> " + path
+			}
+			path = core.FuncName(f) + path
+		}
+		R.Check(hit == nil, "C15.own", "websocket|reader-role|"+core.FuncName(root)+"|answers-through-WriteControl-only", P.Pos(root.Pos()),
+			"code running on the reading goroutine does not reach the message-writing API",
+			"code that runs on the reading goroutine reaches the message-writing API ("+path+"): that API uses the shared write buffer and the one open message writer without a lock and belongs to the data-writing goroutine - the application's message in progress is flushed early and truncated, its remaining writes fail", nil)
+	}
+}
+
 func checkConnOwn(c *Ctx, _ string) {
 	P, R := c.P, c.R
+	checkReaderRole(c)
 	entries := []string{"(*Conn).WriteControl", "(*Conn).Close"}
 	touched := map[string]map[string]bool{}
 	for _, n := range entries {
@@ -366,6 +437,10 @@ func checkConnOwn(c *Ctx, _ string) {
 		switch {
 		case guarded[base] != "":
 			R.OK("C15.own", key, "-", "lock-guarded location ("+guarded[base]+")")
+		case touched[p]["slice"]:
+			R.Fail("C15.own", key, "-",
+				"WriteControl/Close (documented as safe to call concurrently with the data writer and the reader) hand out the storage of an array kept in the connection as a slice and build on it (append/copy): two concurrent control senders, or a sender and the writer, share that scratch space and overwrite each other's frame",
+				map[string]interface{}{"kinds": keys(touched[p])})
 		case len(stored[base]) == 0 && !touched[p]["store"]:
 			R.OK("C15.own", key, "-", "never stored after construction")
 		default:
